@@ -33,12 +33,10 @@ def _fp(fn) -> str:
 
 # function -> {fingerprint: tag}.  Tags select the model variant; "base" is the only variant for most.
 KNOWN_SHAPES = {
-    ("stepup/core/watcher.py", "Watcher", "record_change"): {},
     ("stepup/core/watcher.py", "AsyncInotifyWrapper", "change_loop"): {},
     ("stepup/core/watcher.py", "AsyncInotifyWrapper", "dir_loop"): {},
     ("stepup/core/workflow.py", "Workflow", "change_is_relevant"): {},
     ("stepup/core/workflow.py", "Workflow", "relevant_paths_under"): {},
-    ("stepup/core/workflow.py", "Workflow", "process_nglob_changes"): {},
     ("stepup/core/workflow.py", "Workflow", "get_file_hashes"): {},
     ("stepup/core/workflow.py", "Workflow", "persist_nglob_matches"): {},
     ("stepup/core/workflow.py", None, "_relevant_states"): {},
@@ -47,24 +45,22 @@ KNOWN_SHAPES = {
     ("stepup/core/startup.py", None, "rescan_files"): {},
     ("stepup/core/startup.py", None, "rescan_nglobs"): {},
     ("stepup/core/director.py", "DirectorHandler", "start_build_phase"): {},
-    ("stepup/core/nglob.py", "NamedGlob", "will_change"): {},
-    ("stepup/core/nglob.py", "NamedGlob", "extend"): {},
-    ("stepup/core/nglob.py", "NamedGlob", "reduce"): {},
     ("stepup/core/executor.py", "Executor", "_run_hash_job"): {},
 }
 
 # filled from FINGERPRINTS below (kept separate so that `python -m translator.gen_watch --print`
 # can regenerate the table after a reviewed change of the repo)
 FINGERPRINTS = {
-    "stepup/core/watcher.py:Watcher.record_change": ("c5dd50117a0aa7a3",),
     # Watcher.run_once is not fingerprinted: its body is translated statement by statement
-    # (_run_once_program below)
+    # (_run_once_program below).  Watcher.record_change, Workflow.process_nglob_changes, NamedGlob.will_change /
+    # extend / reduce are not fingerprinted either: harness/p_c14.generate regenerates the statement-level
+    # translations C17 maintains (gen_nglob_batch.py, gen_nglob_code.py) and proofs/WatchTie.v proves C14's
+    # model equal to them through C17's tie files.
     # second shape: the ISDIR branch also queues the directory itself (proposed fix for C14-D10)
     "stepup/core/watcher.py:AsyncInotifyWrapper.change_loop": ("1db8fefdf05cafae", "e1d6cde9fd574e23", "db0649bb364119ee"),  # first: with log-only statements dropped (astutil._DropLogging)
     "stepup/core/watcher.py:AsyncInotifyWrapper.dir_loop": ("71299503f029cf32",),
     "stepup/core/workflow.py:Workflow.change_is_relevant": ("7296039b3c9fd378",),
     "stepup/core/workflow.py:Workflow.relevant_paths_under": ("5b3d4e5ed6bc08c7",),
-    "stepup/core/workflow.py:Workflow.process_nglob_changes": ("e2b93de89edd62c3",),
     "stepup/core/workflow.py:Workflow.get_file_hashes": ("52974d48de67df62",),
     "stepup/core/workflow.py:Workflow.persist_nglob_matches": ("9194b56c3f705a07",),
     "stepup/core/workflow.py:_relevant_states": ("9facbae08f0b1697",),
@@ -73,9 +69,6 @@ FINGERPRINTS = {
     "stepup/core/startup.py:rescan_files": ("a64cd5905d5443f5",),
     "stepup/core/startup.py:rescan_nglobs": ("447d45a8dbb23181",),
     "stepup/core/director.py:DirectorHandler.start_build_phase": ("818b7ed37736663a",),
-    "stepup/core/nglob.py:NamedGlob.will_change": ("b79ba12e9e9f9a28",),
-    "stepup/core/nglob.py:NamedGlob.extend": ("7b49961d987ee00e",),
-    "stepup/core/nglob.py:NamedGlob.reduce": ("164d006314f1b339",),
     # second shape: the result is applied only `if not self._is_stale_confirmation(hash_job)` (fix D17)
     "stepup/core/executor.py:Executor._run_hash_job": ("d18aa73b3fe5cff5", "1c00d122f33c1535"),
 }
